@@ -39,3 +39,23 @@ Theorem C05_processing_terms : forall (H : bytes -> bytes) ids s txid fee len id
     w_amount w' = w_amount w0 /\ w_script w' = w_script w0 /\ w_price w' = w_price w0.
 Proof. exact process_loop_terms. Qed.
 Print Assumptions C05_processing_terms.
+
+(* exactly one terminal notice: in every state reached by a history (withdrawal ids in request lists fresh),
+   the "paid" log holds exactly the withdrawals whose status is paid, the "refund" log exactly the cancelled
+   ones (rejected at request time or cancelled by approval), and neither log has a duplicate.  Together with
+   C05_terminal_forever: a withdrawal is told paid or refund at most once and never both. *)
+From Goat Require Import Proofs.BridgeNotices.
+Theorem C05_exactly_one_notice : forall (H : bytes -> bytes) (chain : bytes) ops s,
+  (forall s0 o, fresh_op s0 o) ->
+  List.NoDup (g_paid s) /\ List.NoDup (g_refund s) /\
+    (forall id, In id (g_paid s) <-> wd_status s id = 5) /\ (forall id, In id (g_refund s) <-> wd_status s id = 4) ->
+  let s' := bk_run H chain s ops in
+  List.NoDup (g_paid s') /\ List.NoDup (g_refund s') /\
+    (forall id, In id (g_paid s') <-> wd_status s' id = 5) /\ (forall id, In id (g_refund s') <-> wd_status s' id = 4).
+Proof. intros H chain ops s Hf Hn. exact (notices_reachable H chain ops s Hf Hn). Qed.
+Print Assumptions C05_exactly_one_notice.
+
+Theorem C05_notice_step : forall (H : bytes -> bytes) (chain : bytes) s o,
+  fresh_op s o -> notices_ok s -> notices_ok (fst (bk_step H chain s o)).
+Proof. exact bk_step_notices. Qed.
+Print Assumptions C05_notice_step.
